@@ -17,7 +17,8 @@ Protocol lines of area `tsprops` (self-contained: programs + interleaving on one
     env     := - | <hexkey>:<val>&<hexkey>:<val>...          val := n | s<hex>
     route   := H <op>* <outcome> | NF <line> <text> | NA <line> <text> <allow> | BP <line>
     op      := path | method | query <k> | cookie <k> | header <name> <wsgikey> | envget <k> | body
-             | form <k> | file <name> <field> | url | kwargs | urlargs | scookie <k> | status <code> <line> | rdstatus | sethdr <k> <v> | addhdr <k> <v>
+             | form <k> | file <name> <field> | url | kwargs | urlargs | scookie <k> | dump <what> | mutate <what>
+             | envset <k> <v> | extset <name> <v> | extget <name> | whoami | status <code> <line> | rdstatus | sethdr <k> <v> | addhdr <k> <v>
              | rdhdr <k> | setcookie <k> <rendered> | ctype <v> | copy | cpath <n> | cset <n> <k> <v>
              | cheader <n> <name> <wsgikey>
              | nested <req> | construct <app>
@@ -105,6 +106,12 @@ mutual
     | "form" :: k :: r => some (.form (str k), r)
     | "file" :: n :: f :: r => some (.file (str n) (str f), r)
     | "url" :: r => some (.url, r)
+    | "dump" :: w :: r => some (.dump (str w), r)
+    | "mutate" :: w :: r => some (.mutate (str w), r)
+    | "envset" :: k :: v :: r => some (.envSet (str k) (str v), r)
+    | "extset" :: k :: v :: r => some (.extSet (str k) (str v), r)
+    | "extget" :: k :: r => some (.extGet (str k), r)
+    | "whoami" :: r => some (.whoami, r)
     | "kwargs" :: r => some (.kwargs, r)
     | "urlargs" :: r => some (.urlArgs, r)
     | "scookie" :: k :: r => some (.scookie (str k), r)
